@@ -2752,7 +2752,7 @@ class StateEngine(object):
             except IntrinsicFailure as e:
                 handle_error(state, "States.IntrinsicFailure", str(e))
                 self.event_dispatcher.acknowledge(id)
-            except PathMatchFailure as e:
+            except (PathMatchFailure, Exception) as e:
                 handle_error(state, "States.Runtime", str(e))
                 self.event_dispatcher.acknowledge(id)
 
